@@ -79,6 +79,11 @@ GroupSet(s) ==
          [names : {<<>>},
           conds : {<<Entry(0, <<c, d>>)>> : c \in [arg : {0}, op : OpSet, val : {0, 1, 2, 3}], d \in [arg : {0}, op : OpSet, val : {0, 1, 2, 3}]}
                   \cup {<<Entry(0, <<c>>)>> : c \in [arg : {0, 1}, op : OpSet, val : {0, 3}]}
+                  \* the same condition written twice in a list, with other conditions between, before or behind the two
+                  \cup UNION {{<<Entry(0, <<c, d, c>>)>>, <<Entry(0, <<c, d, e, c>>)>>, <<Entry(0, <<d, c, c>>)>>, <<Entry(0, <<c, c, d>>)>>, <<Entry(0, <<c, d, c, e>>)>>} :
+                                c \in [arg : {0}, op : {"Equal", "GreaterThan", "BitsSet"}, val : {1}],
+                                d \in [arg : {1}, op : {"Equal", "BitsSet"}, val : {1, 2}],
+                                e \in [arg : {1}, op : {"NotEqual"}, val : {3}]}
                   \cup {<<Entry(0, <<c, e, d>>)>> : c \in [arg : {0}, op : {"BitsSet", "BitsNotSet", "Equal"}, val : {1}], e \in [arg : {1}, op : {"Equal"}, val : {1}],
                                                       d \in [arg : {0}, op : {"BitsSet", "BitsNotSet", "NotEqual"}, val : {2}]},
           act : {"errno"}]
